@@ -29,6 +29,42 @@ type ScaleCase struct {
 	N      int          `json:"n"`
 	M      int          `json:"m,omitempty"` // implementers (family depth)
 	Recipe *ScaleRecipe `json:"recipe,omitempty"`
+	// Appended: that many of the implementers are left out of NewSchema and added with
+	// Schema.AppendType afterwards (one call each)
+	Appended int `json:"appended,omitempty"`
+}
+
+// scaleBuilt builds the scale schema with m implementers, the last `appended` of them appended
+// after construction.
+func scaleBuilt(m, appended int) (*build.Built, *ref.World, error) {
+	s := scaleSchema(m)
+	if appended > 0 {
+		// the implementers to be appended must not be reachable before: they leave the union
+		for _, td := range s.Types {
+			if td.Name == "Any" {
+				keep := len(td.Members) - appended
+				if keep < 1 {
+					keep = 1
+				}
+				td.Members = td.Members[:keep]
+			}
+		}
+	}
+	w := &ref.World{S: s, Salt: 5}
+	var omit []string
+	for i := 0; i < appended && i < m-1; i++ {
+		omit = append(omit, fmt.Sprintf("T%d", m-1-i))
+	}
+	b, err := build.New(s, w, build.Options{Omit: omit})
+	if err != nil {
+		return nil, nil, err
+	}
+	for _, n := range omit {
+		if err := b.Schema.AppendType(b.Types[n]); err != nil {
+			return nil, nil, fmt.Errorf("AppendType(%s): %v", n, err)
+		}
+	}
+	return b, w, nil
 }
 
 // c19RecipeLadder measures a recipe at sizes growing by 1.5 and compares consecutive sizes:
@@ -160,6 +196,13 @@ func scaleDoc(family string, n, m int) string {
 			fmt.Fprintf(&sb, "... on T%d { x: v next { x: w } } ", i%m)
 		}
 		sb.WriteString("} }")
+	case "conds": // n inline fragments conditioned on the interface itself
+		sb.WriteString("{ node { ")
+		for i := 0; i < n; i++ {
+			// conditions every runtime type satisfies: the work is the same whatever the value is
+			fmt.Fprintf(&sb, "... on Node { k%d: v ... on Node { j%d: w } } ", i, i)
+		}
+		sb.WriteString("} }")
 	case "uniondepth": // nesting through a union-typed field whose selection applies to every member
 		sb.WriteString("{ any ")
 		for i := 0; i < n; i++ {
@@ -186,7 +229,7 @@ func scaleDoc(family string, n, m int) string {
 	return sb.String()
 }
 
-var scaleFamilies = []string{"uniondepth", "sparse", "depth", "chain", "fan", "dag", "nestdag", "repeat", "litdeep", "litwide", "exclusive", "wide"}
+var scaleFamilies = []string{"conds", "uniondepth", "sparse", "depth", "chain", "fan", "dag", "nestdag", "repeat", "litdeep", "litwide", "exclusive", "wide"}
 
 type scaleMeasure struct {
 	validate, plan, exec uint64
@@ -315,9 +358,7 @@ func c19Ladder(c *ScaleCase, sizes []int) (msg string, series []uint64) {
 	if m == 0 {
 		m = 4
 	}
-	s := scaleSchema(m)
-	w := &ref.World{S: s, Salt: 5}
-	b, err := build.New(s, w, build.Options{})
+	b, w, err := scaleBuilt(m, c.Appended)
 	if err != nil {
 		return "HARNESS: " + err.Error(), nil
 	}
@@ -404,34 +445,41 @@ func TestC19_Implementers(t *testing.T) {
 	if replayFile() != "" {
 		t.Skip()
 	}
-	for _, fam := range []string{"depth", "uniondepth"} {
+	for _, fam := range []string{"depth", "uniondepth", "conds/0", "conds/1", "conds/2", "conds/3"} {
+		appended := 0
+		if strings.HasPrefix(fam, "conds/") {
+			fmt.Sscanf(fam, "conds/%d", &appended)
+			fam = "conds"
+		}
 		for _, n := range []int{4, 16, 48} {
 			if fam == "uniondepth" && n > 16 {
 				continue // m^n if unions were planned per member: 16 levels show it
 			}
 			var first uint64
 			for i, m := range []int{2, 8, 32, 128} {
-				s := scaleSchema(m)
-				w := &ref.World{S: s, Salt: 5}
-				b, err := build.New(s, w, build.Options{})
+				b, w, err := scaleBuilt(m, appended)
 				if err != nil {
 					t.Fatalf("HARNESS: %v", err)
 				}
 				sm, err := measure(b, w, scaleDoc(fam, n, m))
-				c := &ScaleCase{Family: fam, N: n, M: m}
+				c := &ScaleCase{Family: fam, N: n, M: m, Appended: appended}
 				if capped, ok := err.(errStepCap); ok {
 					fatalViolation("C19", "implementers", c, "a depth-%d query with %d implementers %s", n, m, capped.Error())
 				}
 				if err != nil {
 					t.Fatalf("HARNESS: %v", err)
 				}
-				stats.R.Case(fmt.Sprintf("impl/%s/%d/%d", fam, n, m), true, func() interface{} {
+				stats.R.Case(fmt.Sprintf("impl/%s/%d/%d/%d", fam, appended, n, m), true, func() interface{} {
 					return map[string]interface{}{"depth": n, "implementers": m, "plan_steps": sm.plan, "validate_steps": sm.validate, "exec_steps": sm.exec, "abstract_types_planned_at_execution": sm.abstractPlanned}
 				})
+				work := sm.plan
+				if fam == "conds" {
+					work += sm.exec // the abstract field's sub-selection is planned when a value is met
+				}
 				if i == 0 {
-					first = sm.plan
-				} else if sm.plan != first {
-					violation(t, "C19", "implementers", c, "planning a depth-%d query costs %d steps with %d implementers but %d steps with 2: planning work depends on the number of possible types", n, sm.plan, m, first)
+					first = work
+				} else if work != first {
+					violation(t, "C19", "implementers", c, "planning a size-%d query of family %s (%d implementer(s) appended after construction) costs %d steps with %d implementers but %d steps with 2: planning work depends on the number of possible types", n, fam, appended, work, m, first)
 				}
 				// one value per abstract position: at most one runtime type planned per position
 				if sm.abstractPlanned > uint64(n+1) {
@@ -473,6 +521,7 @@ func TestC19_Gen(t *testing.T) {
 			return
 		}
 		c := &ScaleCase{Family: scaleFamilies[gen.Uniform(rt, len(scaleFamilies), "family")], N: rapid.IntRange(5, 64).Draw(rt, "n"), M: []int{2, 4, 16, 64}[gen.Uniform(rt, 4, "m")]}
+		c.Appended = []int{0, 0, 1, 2, 3}[gen.Uniform(rt, 5, "appended")]
 		if c.Family == "dag" || c.Family == "nestdag" {
 			if c.N > 28 {
 				c.N = 28
